@@ -76,6 +76,11 @@ func (s *Server) Apply(l *raft.Log) interface{} {
 		if s.latestRecoveredLog != nil {
 			s.logger.Debug("fsm: Replaying Raft log...")
 			s.startedRecovery()
+		} else if _, _, err := s.startRecovered(); err != nil {
+			// There is nothing to replay, so finishedRecovery() will not be
+			// called. Streams and groups restored from a snapshot are still
+			// waiting to be started, so start them now.
+			panic(fmt.Sprintf("failed to start state restored from snapshot: %v", err))
 		}
 	}
 
@@ -274,12 +279,25 @@ func (s *Server) finishedRecovery(epoch uint64) (int, int, error) {
 		// output.
 		s.logger.Silent(false)
 	}
-	recoveredStreams := make(map[string]struct{})
 	for _, stream := range s.metadata.GetStreams() {
 		if stream.IsTombstoned() {
 			if err := s.metadata.RemoveTombstonedStream(stream, epoch); err != nil {
 				return 0, 0, errors.Wrap(err, "failed to delete tombstoned stream")
 			}
+		}
+	}
+	return s.startRecovered()
+}
+
+// startRecovered starts any stream partitions and consumer groups which were
+// added in recovery mode and have not been started yet, i.e. those recovered
+// by a Raft log replay or restored from a snapshot. This is idempotent. It
+// returns the number of streams which had partitions that were started and
+// the number of consumer groups that were started.
+func (s *Server) startRecovered() (int, int, error) {
+	recoveredStreams := make(map[string]struct{})
+	for _, stream := range s.metadata.GetStreams() {
+		if stream.IsTombstoned() {
 			continue
 		}
 		for _, partition := range stream.GetPartitions() {
